@@ -47,6 +47,8 @@ def target_field(v):
     for f in ('generation', 'version', 'ceb_shm', 'ceb', 'snapshot_ceb', 'snapshot_gen'):
         if ('self.%s' % f) in s or ('.%s)' % f) in s or s.endswith('.%s' % f):
             return f
+    if 'mmap' in s:
+        return 'mapping'
     return None
 
 
